@@ -649,8 +649,9 @@ class Share(object):
         If key in ._data, return value at key
         Otherwise set value at key to default and return default
         """
-        value = self._data.__dict__.setdefault(key, default)
-        return value
+        if key not in self._data.__dict__:
+            self[key] = default #checks key
+        return self._data.__dict__[key]
 
     def sift(self, fields=None):
         """
